@@ -267,8 +267,12 @@ class Ctx:
         ev = {"property_id": self.pid, "tier": self.tier, "seed": self.seed, "level": level,
               "coverage": cov, "assumptions": self.assumptions,
               "wall_s": round(time.time() - self.t0, 2), "violations": len(by_sig) + (1 if self.broken_ties else 0)}
-        os.makedirs(os.path.join(VERIF, "evidence"), exist_ok=True)
-        json.dump(ev, open(os.path.join(VERIF, "evidence", f"{self.pid}.json"), "w"), indent=1)
+        # evidence/<id>.json is per PROPERTY; auxiliary targets (dce, gocomp, …) that several properties
+        # share write under evidence/aux/
+        import re as _re
+        edir = os.path.join(VERIF, "evidence") if _re.fullmatch(r"C\d\d", self.pid) else os.path.join(VERIF, "evidence", "aux")
+        os.makedirs(edir, exist_ok=True)
+        json.dump(ev, open(os.path.join(edir, f"{self.pid}.json"), "w"), indent=1)
         for l in lines:
             print(l)
         print(f"{self.pid}: {'FAIL' if rc else 'ok'} tier={self.tier} seed={self.seed} "
